@@ -425,6 +425,16 @@ pub fn check(ctx: &mut Ctx) {
         } else {
             ctx.case("same-default-name", "count,count", "viol", serde_json::json!({"class": "C01/same-default-column-name-collapses", "what": "two aggregate functions with the same default column name share one accumulator/column", "query": q, "got": text}));
         }
+        // more shapes of the same hazard: each must be rejected, or give every function its own correct column
+        for q in ["* | json | sum(a), sum(b)", "* | json | count, count(b == 2) by a", "* | json | count as a by a", "* | json | min(a) as x, max(b) as x"] {
+            let r = crate::imp::run(q, &input, "json", 10);
+            let text = String::from_utf8_lossy(&r.stdout).to_string();
+            if r.compiled || r.panicked.is_some() {
+                ctx.case("same-default-name", q, "viol", serde_json::json!({"class": "C01/same-default-column-name-collapses", "what": "two columns of one aggregation have the same name and the stage was accepted", "query": q, "got": text}));
+            } else {
+                ctx.case("same-default-name", q, "pass", serde_json::json!({"query": q}));
+            }
+        }
     }
     // witness replay of the open finding on object-valued keys
     if ctx.shard == 0 {
